@@ -102,6 +102,14 @@ class Shape(ast.NodeTransformer):
             return ast.copy_location(ast.BoolOp(op=op, values=vals), n)
         return n
 
+    def visit_Call(self, n):
+        self.generic_visit(n)
+        # getattr(x, 'name') with a literal identifier and no default is the attribute access x.name
+        if isinstance(n.func, ast.Name) and n.func.id == 'getattr' and len(n.args) == 2 and not n.keywords and \
+                isinstance(n.args[1], ast.Constant) and isinstance(n.args[1].value, str) and n.args[1].value.isidentifier():
+            return ast.copy_location(ast.Attribute(value=n.args[0], attr=n.args[1].value, ctx=ast.Load()), n)
+        return n
+
     def visit_Compare(self, n):
         self.generic_visit(n)
         if len(n.ops) == 1 and isinstance(n.ops[0], (ast.Gt, ast.GtE)):
@@ -654,11 +662,20 @@ def _effect_free_stmt(s):
     return False
 
 
+_STORES_CACHE = {}
+
+
 def _stores(node):
+    k = id(node)
+    hit = _STORES_CACHE.get(k)
+    if hit is not None and hit[0] is node:
+        return hit[1]
     out = set()
     for x in ast.walk(node):
         if isinstance(x, ast.Name) and isinstance(x.ctx, (ast.Store, ast.Del)):
             out.add(x.id)
+    if isinstance(node, ast.stmt):
+        _STORES_CACHE[k] = (node, out)        # stores of a statement do not change when temporaries (loads) are written out
     return out
 
 
